@@ -19,7 +19,7 @@ RULE = (
     "<= 80, connectivity any float in [0, 1], arbitrary int seed.  Oracle: the call returns (no exception); "
     "len(uni.vertices) == count; sorted(v.i) == range(count); every link of every member has exactly the requested "
     "type and both ends inside the universe; with ensurelink every member is v1 of >= 1 link; re-seeding the random "
-    "module with the same value gives the same graph (same (v1.i, v2.i) list per vertex in the same order).  "
+    "module with the same value gives the same graph - in this process, and as the very first call of two separate fresh interpreters - (same (v1.i, v2.i) list per vertex in the same order).  "
     "Non-trivial = count >= 2 and >= 1 link; counts 1..5 with the default connectivity (where 5/count > 1) are "
     "always part of the grid and tallied; distinct = distinct case value."
 )
@@ -98,3 +98,79 @@ def check_case(case):
     if count <= 5 and case["conn"] is None:
         classes.append("small-count-default-connectivity")
     return dict(nt=count >= 2 and nlinks >= 1, classes=classes)
+
+
+def signature(case):
+    """Seed, call randgraph once, describe the result (used in this process and in fresh interpreters)."""
+    from edgegraph.builder import randgraph
+    from eglib import classes as C
+
+    state = random.getstate()
+    try:
+        random.seed(case["seed"])
+        kw = dict(count=case["count"], edge=C.LINK_CLASSES[case["cls"]], ensurelink=case["ens"])
+        if case["conn"] is not None:
+            kw["connectivity"] = case["conn"]
+        u = randgraph.randgraph(**kw)
+        return sorted((v.i, [(l.v1.i, l.v2.i) for l in v.links]) for v in u.vertices)
+    finally:
+        random.setstate(state)
+
+
+def check_fresh(case):
+    """The very FIRST randgraph call of a process (two separate fresh interpreters) against a later call here."""
+    from eglib import fresh
+
+    here = signature(case)
+    sigs = []
+    for _ in range(2):
+        r = fresh.run_jobs([dict(blob=None, flag=False, want=["c20"], case=case)])[0]
+        if r["error"]:
+            raise Violation("randgraph-raised-in-fresh-interpreter", r["error"])
+        sigs.append(r["sig"])
+    require(sigs[0] == sigs[1], "not-reproducible", "same seed, two fresh interpreters, different graphs")
+    require(sigs[0] == here, "not-reproducible", "same seed: the first call of a fresh interpreter and a later call in this process give different graphs")
+    return dict(nt=case["count"] >= 2, classes=["fresh-interpreter-first-call"])
+
+
+_check_case_inproc = check_case
+
+
+def check_case(case):  # noqa: F811
+    if case.get("fresh"):
+        return check_fresh(case["case"])
+    return _check_case_inproc(case)
+
+
+def extra_phase(tier, seed, deadline):
+    import collections
+    from concurrent.futures import ThreadPoolExecutor
+
+    from eglib import driver
+
+    n = 8 if tier == "quick" else 64
+    cases = [{"count": 3 + (seed + k) % 9, "cls": k % 6, "conn": [None, 0.5, 1.0][k % 3], "ens": bool(k % 2), "seed": seed * 1000 + k} for k in range(n)]
+    failures, nt, errors = {}, set(), []
+
+    def one(case):
+        try:
+            check_fresh(case)
+            return case, None
+        except Violation as v:
+            return case, v
+        except Exception as e:  # noqa
+            return case, e
+
+    with ThreadPoolExecutor(8) as ex:
+        for case, err in ex.map(one, cases):
+            if isinstance(err, Violation):
+                failures.setdefault(err.kind, ({"fresh": True, "case": case}, err.detail))
+            elif err is not None:
+                errors.append(repr(err))
+            else:
+                nt.add(driver.case_hash({"fresh": case}))
+    return dict(
+        evaluations=len(cases), skipped_budget=0, nt=nt, nt_enum=0, classes=collections.Counter({"fresh-interpreter-first-call": len(cases)}),
+        excluded=0, samples=[], failures=failures, harness_errors=errors[:2], by_phase=collections.Counter({"fresh-interpreter": len(cases)}),
+        info={"fresh_interpreter_cases": len(cases), "note": "seed + randgraph as the very first call of two separate fresh interpreters, compared with each other and with a later call in this process"},
+    )
